@@ -301,7 +301,7 @@ def evaluate(ctx, deep):
     nmax = 7 if deep else 5
     for n in range(2, nmax + 1):
         if n <= 3:
-            reps = 10 if deep else 4
+            reps = 10 if deep else 3
         elif n == 4:
             reps = 6 if deep else 2
         elif n == 5:
